@@ -945,7 +945,11 @@ def check_backend(case):
 
 
 def contract_backends(case):
-    return run(lambda: check_backend(case), f"backend/{case[0]}", case)
+    # the size of Q t is part of the key: a back-end known to lose accuracy on large |Q t| must still be right on small ones
+    (Q, _w), _rev = q_family(case[1])
+    qt = float(abs(Q).max() * case[2])
+    bucket = "<15" if qt < 15 else "15-50" if qt < 50 else ">=50"
+    return run(lambda: check_backend(case), f"backend/{case[0]}/Qt:{bucket}", case)
 
 
 # ------------------------------------------------------------------------------------------------ discrete-time models
